@@ -84,6 +84,12 @@ M = [
   "    std::char::from_u32(n).ok_or_else(|| {\n        Error::new(\n            \"utf-8 encoding error\",\n            format!(\"number {} is not valid unicode\", n),\n        )\n    })", "    Ok(std::char::from_u32(n).unwrap())"),
  ("C13__main_handle_unwrap", "src/main.rs",
   "    io::handle(\n        &mut stderr,\n        sub_main(", "    let _ = &mut stderr;\n    Result::unwrap(\n        sub_main("),
+ ("C11__sigint_handler_exits_process", "src/app/debug.rs",
+  "            r.store(false, Ordering::SeqCst);\n            let mut stdout = StandardStream::stdout(color);\n            write!(stdout, \"\\ntype \\\"exit\\\" to exit\\n\").unwrap();", "            r.store(false, Ordering::SeqCst);\n            std::process::exit(0);\n            #[allow(unreachable_code)]\n            let mut stdout = StandardStream::stdout(color);\n            write!(stdout, \"\\ntype \\\"exit\\\" to exit\\n\").unwrap();"),
+ ("C01__bang_spins_on_nan", "src/core/area.rs",
+  "                        Some(Ordering::Equal) => left,\n                        _ => right,", "                        Some(Ordering::Equal) => left,\n                        None => area,\n                        _ => right,"),
+ ("C01__push_ignores_short_write", "src/core/execute.rs",
+  "                write!(out, \"{}\", ext::num_to_unicode(&num)?)?;", "                out.write(ext::num_to_unicode(&num)?.to_string().as_bytes())?;"),
  ("C14_C01__read_line_trims_terminator", "src/util/io.rs",
   "        self.read_line(&mut res)?;\n        Ok(res)", "        self.read_line(&mut res)?;\n        Ok(res.trim_end_matches('\\n').to_string())"),
 ]
